@@ -374,6 +374,20 @@ func TestNumctNat(t *testing.T) {
 				d = genNatOp(t, "den", maxB, true)
 			}
 			mode := rapid.SampledFrom([]string{"none", "none", "q=num", "q=den", "r=num", "r=den", "nilrem", "num=den"}).Draw(t, "alias")
+			if mode == "num=den" {
+				d = n
+			}
+			if (op == "EuclideanDivVarTime" || op == "DivVarTime") && divVarTimePanics(n.ann, d.v) {
+				vlib.Excluded(fDivVarPanic)
+				vlib.Case(test, vlib.Desc("numct.Nat", op, "excluded"), false, "op="+op, "note=excluded:"+fDivVarPanic)
+				return
+			}
+			if (op == "EuclideanDivVarTime" || op == "DivVarTime") && (mode == "q=num" || mode == "q=den") {
+				// the receiver is written before the remainder is computed from the operands
+				vlib.Excluded(fDivVarAlias)
+				vlib.Case(test, vlib.Desc("numct.Nat", op, "excluded-alias"), false, "op="+op, "note=excluded:"+fDivVarAlias)
+				return
+			}
 			nn, dd := n.nat(), d.nat()
 			q, r := genNatOp(t, "junkq", 100, false).nat(), genNatOp(t, "junkr", 100, false).nat()
 			fresh := rapid.Bool().Draw(t, "freshout")
